@@ -179,6 +179,15 @@ class VerifyEnv:
         seq = ex.sym_seq(st, v)
         if seq is not None:
             return SeqIter(seq.length(), lambda s, idx, seq=seq: seq.get(idx))
+        if isinstance(v, Ref) and isinstance(st.obj(v), HDict):
+            keys = [SStr.lit(k) if isinstance(k, str) else SInt(k) for k in st.obj(v).items]      # literal dict: its keys in order
+
+            def kelem(s, idx, keys=keys):
+                ci = const_int(idx)
+                if ci is None:
+                    raise Unsupported("symbolic index into literal dict keys")
+                return keys[ci]
+            return SeqIter(iv(len(keys)), kelem)
         for fn in self.iter_models:
             r = fn(ex, st, v)
             if r is not None:
